@@ -95,7 +95,7 @@ def prove_targets(db, targets, lemmas=(), timeout_ms=20000, verbose=False):
     # the budget.  Verdicts must not flip because all cores are busy.
     retry = [i for i, x in enumerate(res) if x["result"] in ("unknown", "error") and not x["expect_sat"]]
     if retry and len(retry) <= 24:
-        res2 = solve.solve_all([obs[i] for i in retry], heaps, timeout_ms=timeout_ms * 6, procs=4)
+        res2 = solve.solve_all([obs[i] for i in retry], heaps, timeout_ms=timeout_ms * 6, procs=4, pass2=True)
         for i, x in zip(retry, res2):
             if x["result"] in ("unsat", "sat"):
                 x["detail"] = (x.get("detail") or "") + " (decided in the second pass)"
